@@ -112,7 +112,28 @@ impl<'g> Sampler<'g> {
             "PUNCTUATION" => "-",
             "WHITE_SPACE" => " ",
             "HAN" => "嗨",
-            _ => "a",
+            other => {
+                // a Unicode property: one of its members among a spread of characters (scripts, categories,
+                // planes), else the first member found from a pseudo-random start
+                if let Some(f) = pest::unicode::by_name(other) {
+                    const SPREAD: &[char] = &[
+                        'a', 'A', '1', ' ', '-', 'é', 'É', 'ß', 'Ω', 'ж', 'א', 'ع', 'क', 'あ', 'ア', '嗨', '한', '🎈', '😀', '\u{300}', '\u{200d}', '\u{fe0f}',
+                        '\u{e0100}', '²', '½', '$', '€', '+', '<', '(', ')', '_', '"', '«', '\u{2028}', '\u{a0}', '\t', '\u{7f}', '\u{ad}', '\u{600}', 'ǅ', 'ᾈ',
+                        'Ⅷ', '〇', '𐌰', '𝒜', '𝟘', '🇦', '\u{e000}', '\u{10ffff}', '\u{378}', 'ʰ', '^', '©', '〜', '\u{20dd}', '\u{903}',
+                    ];
+                    let members: Vec<char> = SPREAD.iter().copied().filter(|c| f(*c)).collect();
+                    if !members.is_empty() {
+                        out.push(*rng.pick(&members));
+                        return;
+                    }
+                    let start = rng.below(0x30000) as u32;
+                    if let Some(c) = (0..0x12000u32).filter_map(|i| char::from_u32((start + i) % 0x30000)).find(|c| f(*c)) {
+                        out.push(c);
+                        return;
+                    }
+                }
+                "a"
+            }
         };
         out.push_str(s);
     }
